@@ -737,6 +737,7 @@ func rulesC14(c *Ctx) {
 	c14Escape(c)
 	c14LiveReads(c)
 	c03MetricsViews(c)
+	c01WithContext(c)
 	// deadlock freedom of the lock-free parts: every blocking channel operation of the library is on the reviewed
 	// inventory (a Try* that blocks, a send outside a select, a wait without a way out are not), and the bulkhead's
 	// semaphore is touched only by the acquire / release protocol
@@ -885,6 +886,35 @@ func configImmutableAll(c *Ctx) {
 	c.Rule("immutable-config")
 	for _, pkg := range executorPkgs {
 		configImmutable(c, pkg)
+	}
+	registrarCallers(c)
+}
+
+// registrarCallers: the condition registrars of the shared policy bases (Handle*, AbortOn*, AbortIf) append to slices
+// that every execution through the policy reads without a lock. They may be called while a policy is being configured
+// (builder methods, Build, constructors) and never from what an execution runs (ToExecutor, the executor slots): a
+// "lazy default" installed on first use is a write that races with the executions already reading.
+func registrarCallers(c *Ctx) {
+	regs := map[string]bool{"HandleErrors": true, "HandleErrorTypes": true, "HandleResult": true, "HandleIf": true,
+		"AbortOnErrors": true, "AbortOnErrorTypes": true, "AbortOnResult": true, "AbortIf": true}
+	ix := BuildIndex(c.P)
+	n, ok := 0, true
+	for _, fn := range c.P.Funcs {
+		if fn.Pkg == nil || fn.Pkg.Pkg.Name() != "policy" || fn.Signature.Recv() == nil || !regs[canonName(fn)] {
+			continue
+		}
+		for _, caller := range ix.Callers[fn] {
+			n++
+			if !ix.Within(caller, func(top *ssa.Function) bool {
+				return (isBuilderMethod(top) || isConstructorLike(top)) && canonName(top) != "ToExecutor"
+			}) {
+				ok = false
+				c.Fail(c.fn(caller)+"→"+canonName(fn), c.P.FuncPos(caller), fmt.Sprintf("%s registers a condition on the shared policy from code an execution runs (%s): the condition lists are read without a lock by every execution through the policy", c.fn(caller), canonName(fn)), "")
+			}
+		}
+	}
+	if ok {
+		c.Ok("policy#registrar-callers", "", fmt.Sprintf("%d call sites of the condition registrars, all in builder methods, Build or constructors", n))
 	}
 }
 
